@@ -91,7 +91,7 @@ package scan
 //@            && (forall j int :: it.last < j && j < it.e0 + big(it.P) - 1 ==> seq(big(it.G), big(it.P), j) > big(it.rangeLimit)))
 
 //@ func (*rangeIterator).Next
-//@   props C04 C01
+//@   props C04 C01 C02 C08 C19
 //@   requires RI(it)
 //@   modifies it.stop, big(it.I), it.e, it.last
 //@   loop 0 modifies big(it.I), it.e
@@ -107,7 +107,7 @@ package scan
 //@   ensures same: it.e0 == old(it.e0) && big(it.G) == old(big(it.G)) && big(it.P) == old(big(it.P)) && big(it.rangeLimit) == old(big(it.rangeLimit))
 
 //@ func newRangeIterator
-//@   props C04 C01
+//@   props C04 C01 C02 C08 C19
 //@   modifies nothing
 //@   ensures reject: (n < 1 || n >= 4294967357) ==> ret1 != nil
 //@   ensures accept: (1 <= n && n <= 4294967356) ==> ret1 == nil && ret0 != nil && RI(ret0) && big(ret0.rangeLimit) == n
@@ -133,20 +133,20 @@ package scan
 //@   observe NewSerializeBuffer, Fill
 //@   loop 0 row cancel:  [ctxdone ; close out] -> exit
 //@   loop 0 row closed:  [recv in as (r, false) ; close out] -> exit
-//@   loop 0 row errreq:    [recv in as (r, true) ; send out bind_x] when r.Err != nil && x.Err == r.Err && x.Buf == nil -> continue
+//@   loop 0 row errreq:    [recv in as (r, true) ; send out bind_x] when r.Err != nil && x.Err == r.Err && x.Buf == nil && newobj(x) -> continue
 //@   loop 0 row errreq_c:  [recv in as (r, true) ; ctxdone] when r.Err != nil -> continue
 //@   loop 0 row fillerr:   [recv in as (r, true) ; call NewSerializeBuffer() as (buf) ; call Fill(g.filler, buf, r) as (ferr) ; send out bind_x]
-//@                            when r.Err == nil && ferr != nil && x.Err == ferr && x.Buf == nil -> continue
+//@                            when r.Err == nil && ferr != nil && x.Err == ferr && x.Buf == nil && newobj(x) -> continue
 //@   loop 0 row built:     [recv in as (r, true) ; call NewSerializeBuffer() as (buf) ; call Fill(g.filler, buf, r) as (ferr) ; send out bind_x]
-//@                            when r.Err == nil && ferr == nil && x.Buf == buf && x.Err == nil -> continue
+//@                            when r.Err == nil && ferr == nil && x.Buf == buf && x.Err == nil && newobj(x) -> continue
 //@   loop 0 row fill_c:    [recv in as (r, true) ; call NewSerializeBuffer() as (buf) ; call Fill(g.filler, buf, r) as (ferr) ; ctxdone] when r.Err == nil -> continue
 //@ func (*packetGenerator).Packets
-//@   props C07 C16 C01 C19 C05 C11 C13
+//@   props C07 C16 C01 C19 C05 C11 C13 C12
 //@   entry row start: [go (*packetGenerator).Packets$1] -> exit
 
 // multi-generator: exactly numWorkers generator instances, all reading the same request channel, merged
 //@ func (*packetMultiGenerator).Packets
-//@   props C07 C16 C01 C19 C13 C05 C11
+//@   props C07 C16 C01 C19 C13 C05 C11 C12
 //@   observe Packets, MergeBufferDataChan
 //@   requires g.numWorkers >= 0
 //@   loop 0 invariant bounds: 0 <= i && i <= g.numWorkers && len(workers) == g.numWorkers
@@ -182,24 +182,24 @@ package scan
 
 // packet engine: the source feeds the sender, completion = the sender's done, both error streams are merged
 //@ func (*PacketEngine).Start
-//@   props C07 C16 C12 C01 C20 C19 C13 C03 C08 C14 C15 C06
+//@   props C07 C16 C12 C01 C20 C19 C13 C03 C08 C14 C15 C06 C09 C10
 //@   observe Packets, SendPackets, ReceivePackets, mergeErrChan
 //@   entry row wiring: [call Packets(e.src, ctx, r) as (pk) ; call SendPackets(e.snd, ctx, pk) as (done, errc1) ; call ReceivePackets(e.rcv, ctx) as (errc2) ; call mergeErrChan(ctx, bind_cs) as (m)]
 //@                       when ret0 == done && ret1 == m && len(cs) == 2 && cs[0] == errc1 && cs[1] == errc2 -> exit
 
 // error merger (same shape as the packet merger; the send is guarded)
 //@ func mergeErrChan$1
-//@   props C07 C08 C12 C20 C16 C13
+//@   props C07 C08 C12 C20 C16 C13 C03
 //@   observe (*sync.WaitGroup).Done
 //@   loop 0 row cancel:  [ctxdone ; call Done(_)] -> exit
 //@   loop 0 row closed:  [recv c as (e, false) ; call Done(_)] -> exit
 //@   loop 0 row forward: [recv c as (e, true) ; send? out e] -> continue
 //@ func mergeErrChan$2
-//@   props C07 C08 C12 C20 C16 C13
+//@   props C07 C08 C12 C20 C16 C13 C03
 //@   observe (*sync.WaitGroup).Wait
 //@   entry row closer: [call Wait(_) ; close out] -> exit
 //@ func mergeErrChan
-//@   props C07 C08 C12 C20 C16 C13
+//@   props C07 C08 C12 C20 C16 C13 C03
 //@   observe (*sync.WaitGroup).Add
 //@   entry row setup: [call Add(_, len(channels))] -> loop 0
 //@   loop 0 row spawn:  [go mergeErrChan$1] -> continue
@@ -235,17 +235,17 @@ package scan
 
 // result hand-off: Put is a guarded send on the internal channel; the copier forwards each element once
 //@ func (*resultChan).Put
-//@   props C08 C12 C14 C20 C16 C06 C03
+//@   props C08 C12 C14 C20 C16 C06 C03 C09 C10 C11
 //@   entry row put: [send? c.internalResults r] -> exit
 //@ func NewResultChan$1
-//@   props C08 C12 C14 C16 C03 C06 C20
+//@   props C08 C12 C14 C16 C03 C06 C20 C09 C10 C11
 //@   loop 0 row cancel:  [ctxdone ; close results] -> exit
 //@   loop 0 row forward: [recv internalResults as (v, _) ; send? results v] -> loop 0
 //@   loop 0 row fwd_c:   [recv internalResults as (v, _) ; ctxdone ; close results] -> exit
 
 // C15: every probe is charged exactly once, before it starts
 //@ func (*rateLimitScanner).Scan
-//@   props C15 C01 C08 C02 C09 C10 C13
+//@   props C15 C01 C08 C02 C09 C10 C13 C12
 //@   observe Take, Scan
 //@   entry row charged: [call Take(s.limiter) ; call Scan(s.Scanner, ctx, r) as (res, e)] when ret0 == res && ret1 == e -> exit
 
@@ -255,7 +255,7 @@ package scan
 // cancellation or starts exactly one new pass. The only exit is cancellation; a pass that fails to start
 // leaves the loop alive (the next read blocks until cancellation).
 //@ func (*liveRequestGenerator).GenerateRequests$1
-//@   props C19 C12 C01 C02 C07 C13 C17
+//@   props C19 C12 C01 C02 C07 C13 C17 C04 C05 C08
 //@   observe time.After, GenerateRequests
 //@   loop 0 row forward:   [recv pre(requests) as (rq, true) ; send? out rq] -> continue
 //@   loop 0 row pass_end:  [recv pre(requests) as (rq, false) ; call time.After(rg.rescanTimeout) as (t) ; recv t as (_, _) ; call GenerateRequests(rg.delegate, ctx, r) as (nr, e)]
@@ -265,7 +265,7 @@ package scan
 //@   loop 0 row cancel_t:  [ctxdone ; call time.After(rg.rescanTimeout) as (t) ; recv t as (_, _) ; call GenerateRequests(rg.delegate, ctx, r) as (nr, e)]
 //@                            when requests == nr -> continue
 //@ func (*liveRequestGenerator).GenerateRequests
-//@   props C19 C01 C02 C07 C13 C17
+//@   props C19 C01 C02 C07 C13 C17 C04 C05 C08 C12
 //@   observe GenerateRequests
 //@   entry row fail:  [call GenerateRequests(rg.delegate, ctx, r) as (rq, e)] when e != nil && ret0 == nil && ret1 == e -> exit
 //@   entry row start: [call GenerateRequests(rg.delegate, ctx, r) as (rq, e) ; go (*liveRequestGenerator).GenerateRequests$1{out: bind_o, ctx: bind_c, requests: bind_rq2, rg: bind_g2, r: bind_r2}]
@@ -289,23 +289,23 @@ package scan
 //@   ensures ret == nil ==> v.IP == ite(hasip(data), jsonip(data), old(v.IP)) && v.Port == ite(hasport(data), jsonport(data), old(v.Port))
 
 //@ func (*fileIPPortGenerator).GenerateRequests$1
-//@   props C13 C01 C12 C07 C02 C17 C19
+//@   props C13 C01 C12 C07 C02 C17 C19 C04 C05 C08
 //@   observe (*bufio.Scanner).Scan, (*bufio.Scanner).Bytes, (*bufio.Scanner).Err, UnmarshalJSON, net.ParseIP, Close
 //@   loop 0 row eof:     [call Scan(_) as (more) ; call Err(_) as (e) ; call Close(_) ; close out] when !more && e == nil -> exit
 //@   loop 0 row eof_err: [call Scan(_) as (more) ; call Err(_) as (e) ; send? out bind_x ; call Close(_) ; close out] when !more && e != nil && x.Err == e -> exit
 //@   loop 0 row badjson: [call Scan(_) as (more) ; call Bytes(_) as (b) ; call UnmarshalJSON(_, b) as (je) ; send? out bind_x ; call Close(_) ; close out]
 //@                          when more && je != nil && x.Err == ErrJSON -> exit
 //@   loop 0 row badip:   [call Scan(_) as (more) ; call Bytes(_) as (b) ; call UnmarshalJSON(_, b) as (je) ; call net.ParseIP(bind_s) as (ip) ; send? out bind_x]
-//@                          when more && je == nil && s == lineip(b) && ip == nil && x.Err == ErrIP -> continue
+//@                          when more && je == nil && s == lineip(b) && ip == nil && x.Err == ErrIP && newobj(x) -> continue
 //@   loop 0 row badport: [call Scan(_) as (more) ; call Bytes(_) as (b) ; call UnmarshalJSON(_, b) as (je) ; call net.ParseIP(bind_s) as (ip) ; send? out bind_x]
-//@                          when more && je == nil && s == lineip(b) && ip != nil && !(1 <= lineport(b) && lineport(b) <= 65535) && x.Err == ErrPort -> continue
+//@                          when more && je == nil && s == lineip(b) && ip != nil && !(1 <= lineport(b) && lineport(b) <= 65535) && x.Err == ErrPort && newobj(x) -> continue
 //@   loop 0 row request: [call Scan(_) as (more) ; call Bytes(_) as (b) ; call UnmarshalJSON(_, b) as (je) ; call net.ParseIP(bind_s) as (ip) ; send? out bind_x]
 //@                          when more && je == nil && s == lineip(b) && ip != nil && 1 <= lineport(b) && lineport(b) <= 65535
-//@                            && x.Err == nil && x.DstIP == ip && x.DstPort == lineport(b) && x.SrcIP == r.SrcIP && x.SrcMAC == r.SrcMAC -> continue
+//@                            && x.Err == nil && x.DstIP == ip && x.DstPort == lineport(b) && x.SrcIP == r.SrcIP && x.SrcMAC == r.SrcMAC && newobj(x) -> continue
 
 // address file: same per-line rule; any bad line ends the stream after its one error
 //@ func (*fileIPGenerator).IPs$1
-//@   props C13 C01 C12 C07 C02 C17 C19
+//@   props C13 C01 C12 C07 C02 C17 C19 C04 C05 C08
 //@   observe (*bufio.Scanner).Scan, (*bufio.Scanner).Bytes, (*bufio.Scanner).Err, UnmarshalJSON, net.ParseIP, Close
 //@   loop 0 row eof:     [call Scan(_) as (more) ; call Err(_) as (e) ; call Close(_) ; close out] when !more && e == nil -> exit
 //@   loop 0 row eof_err: [call Scan(_) as (more) ; call Err(_) as (e) ; send? out bind_x ; call Close(_) ; close out]
@@ -321,7 +321,7 @@ package scan
 // error becomes the request's error; an excluded address is dropped; everything else passes unchanged.
 // emitted <=> not excluded (C02).
 //@ func (*filterIPRequestGenerator).GenerateRequests$1
-//@   props C13 C02 C01 C12 C07 C19 C17
+//@   props C13 C02 C01 C12 C07 C19 C17 C04 C05 C08
 //@   observe Contains
 //@   loop 0 row cancel:   [ctxdone ; close out] -> exit
 //@   loop 0 row closed:   [recv requests as (rq, false) ; close out] -> exit
@@ -338,7 +338,7 @@ package scan
 // nothing outside it ever is (confinement). FillBytes cannot panic (0 <= NET + I - 1 < 2^32).
 //@ pred IPv4Net(n *net.IPNet) = n != nil && len(n.IP) == 4 && len(n.Mask) == 4
 //@ func (*ipGenerator).IPs
-//@   props C01 C02 C04 C19 C07 C13 C17
+//@   props C01 C02 C04 C19 C07 C13 C17 C05 C08 C12
 //@   requires r != nil && (r.DstSubnet != nil ==> IPv4Net(r.DstSubnet))
 //@   ensures nosubnet: old(r.DstSubnet) == nil ==> ret0 == nil && ret1 == ErrSubnet
 //@   observe Size, newRangeIterator
@@ -347,7 +347,7 @@ package scan
 //@   entry row start:    [call Size(_) as (ones, bits) ; call newRangeIterator(bind_n) as (it, e) ; go (*ipGenerator).IPs$1{out: bind_o, it: bind_i2, ctx: bind_c}]
 //@                          when r.DstSubnet != nil && n == pow2(bits - ones) && e == nil && i2 == it && c == ctx && ret0 == o && ret1 == nil -> exit
 //@ func (*ipGenerator).IPs$1
-//@   props C01 C02 C12 C04 C19 C07 C13 C17
+//@   props C01 C02 C12 C04 C19 C07 C13 C17 C05 C08
 //@   observe FillBytes, Next
 //@   requires it != nil && RI(it) && baseIP != nil && distinct(baseIP, it.P, it.G, it.I, it.startI, it.rangeLimit)
 //@   requires 1 <= big(it.I) && big(it.I) <= big(it.rangeLimit)
@@ -369,19 +369,19 @@ package scan
 // port generator: for each range in order, the value sent is StartPort + (I - 1) (exact in uint16 because
 // validatePorts gives StartPort <= EndPort, so 1 <= I <= n <= 65536 and the iterator cannot fail to be built)
 //@ func validatePorts
-//@   props C01 C18 C02 C07 C13 C17 C19
+//@   props C01 C18 C02 C07 C13 C17 C19 C04 C05 C08 C12
 //@   modifies nothing
 //@   ensures ret == nil ==> len(ports) > 0
 //@   loop 0 invariant seen: 0 <= rangeindex + 1 && (forall k int :: 0 <= k && k <= rangeindex ==> ports[k].StartPort <= ports[k].EndPort)
 //@   ensures ordered: ret == nil ==> (forall k int :: 0 <= k && k < len(ports) ==> ports[k].StartPort <= ports[k].EndPort)
 //@ func (*portGenerator).Ports
-//@   props C01 C04 C02 C07 C13 C17 C19
+//@   props C01 C04 C02 C07 C13 C17 C19 C05 C08 C12
 //@   requires r != nil
 //@   observe validatePorts
 //@   entry row invalid: [call validatePorts(r.Ports) as (e)] when e != nil && ret0 == nil && ret1 == e -> exit
 //@   entry row start:   [call validatePorts(r.Ports) as (e) ; go (*portGenerator).Ports$1{out: bind_o, r: bind_r2, ctx: bind_c}] when e == nil && ret1 == nil && ret0 == o && r2 == r && c == ctx -> exit
 //@ func (*portGenerator).Ports$1
-//@   props C01 C12 C04 C18 C02 C07 C13 C17 C19
+//@   props C01 C12 C04 C18 C02 C07 C13 C17 C19 C05 C08
 //@   observe newRangeIterator, (*math/big.Int).Int64, Next
 //@   requires r != nil && (forall k int :: 0 <= k && k < len(r.Ports) ==> r.Ports[k].StartPort <= r.Ports[k].EndPort)
 //@   loop 0 modifies nothing
@@ -404,17 +404,17 @@ package scan
 // carrying that address, that port and the range's source addresses; then the address generator is started again
 // exactly once. (ports x addresses, each pair once, by the fold schema over the two loops.)
 //@ func (*ipPortGenerator).GenerateRequests$1
-//@   props C01 C12 C13 C07 C02 C17 C19
+//@   props C01 C12 C13 C07 C02 C17 C19 C04 C05 C08
 //@   observe GetPort, GetIP, IPs
 //@   loop 0 row closed:   [recv ports as (p, false) ; close out] -> exit
-//@   loop 0 row porterr:  [recv ports as (p, true) ; call GetPort(p) as (port, e) ; send? out bind_x] when e != nil && x.Err == e -> continue
+//@   loop 0 row porterr:  [recv ports as (p, true) ; call GetPort(p) as (port, e) ; send? out bind_x] when e != nil && x.Err == e && newobj(x) -> continue
 //@   loop 0 row pass:     [recv ports as (p, true) ; call GetPort(p) as (port, e)] when e == nil -> loop 1
 //@   loop 1 row request:  [recv pre(ips) as (a, true) ; call GetIP(a) as (dstip, e2) ; send? out bind_x]
-//@                           when x.DstIP == dstip && x.DstPort == port && x.Err == e2 && x.SrcIP == r.SrcIP && x.SrcMAC == r.SrcMAC -> continue
+//@                           when x.DstIP == dstip && x.DstPort == port && x.Err == e2 && x.SrcIP == r.SrcIP && x.SrcMAC == r.SrcMAC && newobj(x) -> continue
 //@   loop 1 row passdone: [recv pre(ips) as (a, false) ; call IPs(rg.ipgen, ctx, r) as (nips, e3)] when e3 == nil && ips == nips -> loop 0
 //@   loop 1 row regenerr: [recv pre(ips) as (a, false) ; call IPs(rg.ipgen, ctx, r) as (nips, e3) ; send? out bind_x ; close out] when e3 != nil && x.Err == e3 -> exit
 //@ func (*ipPortGenerator).GenerateRequests
-//@   props C01 C02 C07 C13 C17 C19
+//@   props C01 C02 C07 C13 C17 C19 C04 C05 C08 C12
 //@   observe Ports, IPs
 //@   entry row noports: [call Ports(rg.portgen, ctx, r) as (ps, e)] when e != nil && ret0 == nil && ret1 == e -> exit
 //@   entry row noips:   [call Ports(rg.portgen, ctx, r) as (ps, e) ; call IPs(rg.ipgen, ctx, r) as (is, e2)] when e == nil && e2 != nil && ret0 == nil && ret1 == e2 -> exit
@@ -424,12 +424,12 @@ package scan
 
 // port-less scans (arp, icmp): one request per address of the single pass
 //@ func (*ipRequestGenerator).GenerateRequests$1
-//@   props C01 C12 C13 C07 C19 C02 C17
+//@   props C01 C12 C13 C07 C19 C02 C17 C04 C05 C08
 //@   observe GetIP
 //@   loop 0 row closed:  [recv ips as (a, false) ; close out] -> exit
-//@   loop 0 row request: [recv ips as (a, true) ; call GetIP(a) as (dstip, e) ; send? out bind_x] when x.DstIP == dstip && x.Err == e && x.SrcIP == r.SrcIP && x.SrcMAC == r.SrcMAC -> continue
+//@   loop 0 row request: [recv ips as (a, true) ; call GetIP(a) as (dstip, e) ; send? out bind_x] when x.DstIP == dstip && x.Err == e && x.SrcIP == r.SrcIP && x.SrcMAC == r.SrcMAC && newobj(x) -> continue
 //@ func (*ipRequestGenerator).GenerateRequests
-//@   props C01 C19 C02 C07 C13 C17
+//@   props C01 C19 C02 C07 C13 C17 C04 C05 C08 C12
 //@   observe IPs
 //@   entry row noips: [call IPs(rg.ipgen, ctx, r) as (is, e)] when e != nil && ret0 == nil && ret1 == e -> exit
 //@   entry row start: [call IPs(rg.ipgen, ctx, r) as (is, e) ; go (*ipRequestGenerator).GenerateRequests$1{out: bind_o, ips: bind_is2, ctx: bind_c, r: bind_r2}]
@@ -439,17 +439,17 @@ package scan
 // C08: engine construction. The engine keeps exactly the generator, scanner and result channel it was given;
 // default 100 workers; the worker option sets exactly the worker count; options are applied in order, then nothing.
 //@ func WithScanWorkerCount$1
-//@   props C08 C01 C02 C09 C10 C13 C15
+//@   props C08 C01 C02 C09 C10 C13 C15 C12
 //@   modifies s.workerCount
 //@   ensures s.workerCount == workerCount
 //@ func NewScanEngine
-//@   props C08 C01 C02 C09 C10 C13 C15
+//@   props C08 C01 C02 C09 C10 C13 C15 C12
 //@   observe o
 //@   entry row init:  [] when s.reqgen == reqgen && s.scanner == scanner && s.results == results && s.workerCount == 100 -> loop 0
 //@   loop 0 row apply: [call o(s)] -> continue
 //@   loop 0 row done:  [] when ret == s -> exit
 //@ func NewRateLimitScanner
-//@   props C15 C01 C02 C08 C09 C10 C13
+//@   props C15 C01 C02 C08 C09 C10 C13 C12
 //@   ensures isptr(ret, rateLimitScanner) && asptr(ret, rateLimitScanner).Scanner == delegate && asptr(ret, rateLimitScanner).limiter == limiter
 
 // ---------------------------------------------------------------------------------------------
@@ -457,87 +457,87 @@ package scan
 // was given; the outer function of a stage fails with the delegate's error and otherwise spawns its worker once on
 // the channel it returns.
 //@ func NewPacketSource
-//@   props C07 C01 C19 C05 C11 C13 C16
+//@   props C07 C01 C19 C05 C11 C13 C16 C12
 //@   ensures isptr(ret, packetSource) && asptr(ret, packetSource).reqgen == reqgen && asptr(ret, packetSource).pktgen == pktgen
 //@ func NewPacketGenerator
-//@   props C07 C01 C05 C11 C13 C16 C19
+//@   props C07 C01 C05 C11 C13 C16 C19 C12
 //@   ensures isptr(ret, packetGenerator) && asptr(ret, packetGenerator).filler == filler
 //@ func NewPacketMultiGenerator
-//@   props C07 C01 C19 C05 C11 C13 C16
+//@   props C07 C01 C19 C05 C11 C13 C16 C12
 //@   ensures isptr(ret, packetMultiGenerator) && asptr(ret, packetMultiGenerator).numWorkers == numWorkers && asptr(ret, packetMultiGenerator).gen != nil && asptr(ret, packetMultiGenerator).gen.filler == filler
 //@ func NewPacketEngine
-//@   props C07 C20 C01 C03 C08 C13 C14 C15 C16 C06
+//@   props C07 C20 C01 C03 C08 C13 C14 C15 C16 C06 C09 C10 C12
 //@   ensures ret != nil && ret.src == ps && ret.snd == s && ret.rcv == r
 //@ func NewEngineResulter
-//@   props C07 C08 C03 C06 C14 C16 C20
+//@   props C07 C08 C03 C06 C14 C16 C20 C09 C10 C11 C12
 //@   ensures isptr(ret, engineResulter) && asptr(ret, engineResulter).Engine == e && asptr(ret, engineResulter).Resulter == r
 //@ func SetupPacketEngine
-//@   props C07 C20 C15 C03 C01 C08 C13 C14 C16 C06
+//@   props C07 C20 C15 C03 C01 C08 C13 C14 C16 C06 C09 C10 C12
 //@   opaque packet.NewSender, packet.NewReceiver
 //@   observe NewPacketEngine, NewEngineResulter
 //@   entry row setup: [call packet.NewSender(bind_w) as (snd) ; call packet.NewReceiver(bind_rd, bind_pr) as (rcv) ; call NewPacketEngine(bind_src, snd, rcv) as (eng) ; call NewEngineResulter(bind_e2, bind_rs) as (er)]
 //@                       when w == rw && rd == rw && pr == m && src == m && rs == m && isptr(e2, PacketEngine) && asptr(e2, PacketEngine) == eng && ret == er -> exit
 //@ func NewIPPortGenerator
-//@   props C01 C02 C07 C13 C17 C19
+//@   props C01 C02 C07 C13 C17 C19 C04 C05 C08 C12
 //@   ensures isptr(ret, ipPortGenerator) && asptr(ret, ipPortGenerator).ipgen == ipgen && asptr(ret, ipPortGenerator).portgen == portgen
 //@ func NewIPRequestGenerator
-//@   props C01 C19 C02 C07 C13 C17
+//@   props C01 C19 C02 C07 C13 C17 C04 C05 C08 C12
 //@   ensures isptr(ret, ipRequestGenerator) && asptr(ret, ipRequestGenerator).ipgen == ipgen
 //@ func NewFileIPPortGenerator
-//@   props C01 C13 C02 C07 C17 C19
+//@   props C01 C13 C02 C07 C17 C19 C04 C05 C08 C12
 //@   ensures isptr(ret, fileIPPortGenerator) && asptr(ret, fileIPPortGenerator).openFile == openFile
 //@ func NewFileIPGenerator
-//@   props C01 C13 C02 C07 C17 C19
+//@   props C01 C13 C02 C07 C17 C19 C04 C05 C08 C12
 //@   ensures isptr(ret, fileIPGenerator) && asptr(ret, fileIPGenerator).openFile == openFile
 //@ func NewLiveRequestGenerator
-//@   props C19 C01 C02 C07 C13 C17
+//@   props C19 C01 C02 C07 C13 C17 C04 C05 C08 C12
 //@   ensures isptr(ret, liveRequestGenerator) && asptr(ret, liveRequestGenerator).delegate == rg && asptr(ret, liveRequestGenerator).rescanTimeout == rescanTimeout
 //@ func NewFilterIPRequestGenerator
-//@   props C02 C13 C01 C07 C17 C19
+//@   props C02 C13 C01 C07 C17 C19 C04 C05 C08 C12
 //@   ensures isptr(ret, filterIPRequestGenerator) && asptr(ret, filterIPRequestGenerator).delegate == delegate && asptr(ret, filterIPRequestGenerator).excludeIPs == excludeIPs
 //@ func (*filterIPRequestGenerator).GenerateRequests
-//@   props C02 C13 C01 C07 C17 C19
+//@   props C02 C13 C01 C07 C17 C19 C04 C05 C08 C12
 //@   observe GenerateRequests
 //@   entry row fail:  [call GenerateRequests(rg.delegate, ctx, r) as (rq, e)] when e != nil && ret0 == nil && ret1 == e -> exit
 //@   entry row start: [call GenerateRequests(rg.delegate, ctx, r) as (rq, e) ; go (*filterIPRequestGenerator).GenerateRequests$1{out: bind_o, ctx: bind_c, requests: bind_rq2, rg: bind_g2}]
 //@                       when e == nil && ret1 == nil && ret0 == o && rq2 == rq && c == ctx && g2 == rg -> exit
 //@ func (*fileIPPortGenerator).GenerateRequests
-//@   props C01 C13 C02 C07 C17 C19
+//@   props C01 C13 C02 C07 C17 C19 C04 C05 C08 C12
 //@   observe openFile
 //@   entry row fail:  [call openFile() as (in, e)] when e != nil && ret0 == nil && ret1 == e -> exit
 //@   entry row start: [call openFile() as (in, e) ; go (*fileIPPortGenerator).GenerateRequests$1{out: bind_o, ctx: bind_c, input: bind_in2, r: bind_r2}]
 //@                       when e == nil && ret1 == nil && ret0 == o && in2 == in && c == ctx && r2 == r -> exit
 //@ func (*fileIPGenerator).IPs
-//@   props C01 C13 C02 C07 C17 C19
+//@   props C01 C13 C02 C07 C17 C19 C04 C05 C08 C12
 //@   observe openFile
 //@   entry row fail:  [call openFile() as (in, e)] when e != nil && ret0 == nil && ret1 == e -> exit
 //@   entry row start: [call openFile() as (in, e) ; go (*fileIPGenerator).IPs$1{out: bind_o, ctx: bind_c, input: bind_in2}]
 //@                       when e == nil && ret1 == nil && ret0 == o && in2 == in && c == ctx -> exit
 //@ func NewResultChan
-//@   props C08 C12 C14 C16 C03 C06 C20
+//@   props C08 C12 C14 C16 C03 C06 C20 C09 C10 C11
 //@   entry row start: [go NewResultChan$1{results: bind_rs, internalResults: bind_ir, ctx: bind_c}]
 //@                       when c == ctx && isptr(ret, resultChan) && asptr(ret, resultChan).results == rs && asptr(ret, resultChan).internalResults == ir && asptr(ret, resultChan).ctx == ctx && rs != ir -> exit
 //@ func (*resultChan).Chan
-//@   props C08 C14 C03 C06 C16 C20
+//@   props C08 C14 C03 C06 C16 C20 C09 C10 C11 C12
 //@   ensures ret == c.results
 //@ func (*GenericEngine).Results
-//@   props C08 C01 C02 C09 C10 C13 C15
+//@   props C08 C01 C02 C09 C10 C13 C15 C12
 //@   observe Chan
 //@   entry row chan: [call Chan(e.results) as (c)] when ret == c -> exit
 //@ func isValidPort
-//@   props C13 C18 C01 C02 C07 C17 C19
+//@   props C13 C18 C01 C02 C07 C17 C19 C04 C05 C08 C12
 //@   ensures ret <==> (1 <= port && port <= 65535)
 //@ func (*rangeIterator).Int
-//@   props C04 C01
+//@   props C04 C01 C02 C08 C19
 //@   ensures ret == it.I
 
 // the engine/resulter pair forwards both roles to its two parts unchanged
 //@ func (*engineResulter).Start
-//@   props C07 C08 C12 C16 C03 C06 C14 C20
+//@   props C07 C08 C12 C16 C03 C06 C14 C20 C09 C10 C11
 //@   observe Start
 //@   entry row forward: [call Start(recv.Engine, _, _) as (d, ec)] when ret0 == d && ret1 == ec -> exit
 //@ func (*engineResulter).Results
-//@   props C08 C14 C16 C03 C06 C20
+//@   props C08 C14 C16 C03 C06 C20 C09 C10 C11 C12
 //@   observe Results
 //@   entry row forward: [call Results(recv.Resulter) as (c)] when ret == c -> exit
 
@@ -559,5 +559,5 @@ package scan
 // option constructors: each returns its own option closure over exactly its argument (verified here, inlined at call sites)
 //@ func WithScanWorkerCount
 //@   inline
-//@   props C08 C01 C02 C09 C10 C13 C15
+//@   props C08 C01 C02 C09 C10 C13 C15 C12
 //@   ensures closureof(ret, "WithScanWorkerCount$1") && capt(ret, "workerCount") == workerCount
